@@ -159,3 +159,149 @@ Section Equiv.
     rewrite <- (Heq eq_refl). rewrite (IH w1 cs1) by assumption. reflexivity.
   Qed.
 End Equiv.
+
+(* ------------------------------------------------------------------------------------- *)
+(* Datagram front-ends: threaded (a handler and a framer per datagram) vs asyncio (one     *)
+(* framer for everything), on datagrams that carry whole frames                            *)
+(* ------------------------------------------------------------------------------------- *)
+
+Section Dgram.
+  Variables FS Req Resp World : Type.
+  Variable E : env FS Req Resp World.
+  Notation serve_step := (serve_step FS Req Resp World code E).
+  Notation serve_data := (serve_data FS Req Resp World code E).
+  Notation serve_activation := (serve_activation FS Req Resp World code E).
+  Notation serve_event := (serve_event FS Req Resp World code E).
+  Notation run_events := (run_events FS Req Resp World code E).
+  Notation deliver := (deliver FS Req Resp World E).
+  Notation fargs_for := (fargs_for FS Req Resp World E).
+  Notation fresh_conn := (fresh_conn FS Req Resp World E).
+  Notation finit := (e_finit FS Req Resp World E).
+
+  (* a datagram of whole frames: from the initial framer state the framer raises nothing and is
+     back in its initial state afterwards (nothing is left in the buffer) *)
+  Definition whole_frames (bs : bytes) : Prop :=
+    bs <> [] /\ forall fa, exists ds, e_recv _ _ _ _ E fa finit bs = (ds, finit, None).
+  (* an empty read does nothing to an empty framer *)
+  Definition empty_read_idle : Prop := forall fa, e_recv _ _ _ _ E fa finit [] = ([], finit, None).
+
+  Lemma deliver_none : forall X c ds w ff exn acc w' f' o,
+    deliver X c w ds ff exn acc = (w', f', o, None) -> f' = ff /\ exn = None.
+  Proof.
+    induction ds as [|[f r] t IH]; intros w ff exn acc w' f' o H; cbn in H.
+    - inversion H; subst. split; reflexivity.
+    - destruct (callback _ _ _ _ E X c w r); [eapply IH; exact H|discriminate].
+  Qed.
+
+  Lemma dgram_fargs : forall c w e, cfg_broadcast c = false ->
+    fargs_for (fc_loop code SyncUdp) c w e = fargs_for (fc_loop code AioUdp) c w false.
+  Proof.
+    intros c w e H. unfold Frontends.fargs_for, Frontends.units_for. cbn.
+    unfold prep_units. rewrite H. reflexivity.
+  Qed.
+
+  (* asyncio: one datagram of whole frames on which nothing is raised *)
+  Lemma aio_dgram_step : forall c w bs, whole_frames bs ->
+    snd (serve_step AioUdp c w fresh_conn (IData bs)) = Continue ->
+    exists w' o, serve_step AioUdp c w fresh_conn (IData bs) = (w', fresh_conn, o, Continue) /\
+      (let '(ds, ff, exn) := e_recv _ _ _ _ E (fargs_for (fc_loop code AioUdp) c w false) finit bs in
+       deliver (fc_exec code AioUdp) c w ds ff exn []) = (w', finit, o, None).
+  Proof.
+    intros c w bs [Hne Hw] Ha.
+    assert (He : is_empty bs = false) by (destruct bs; [congruence|reflexivity]).
+    unfold Frontends.serve_step, Frontends.serve_data in *.
+    cbn [pre_raise fc_loop code loop_of loop_AioUdp ls_addr_fmt ls_listen_gate ls_units andb] in *.
+    rewrite He in *. cbn [andb] in *.
+    change (cs_f FS fresh_conn) with finit in *.
+    destruct (Hw (fargs_for loop_AioUdp c w false)) as [ds Hr]. rewrite Hr in *.
+    destruct (deliver (fc_exec code AioUdp) c w ds finit None []) as [[[w' f'] o] exn'] eqn:Hd.
+    cbn [snd] in Ha. destruct exn' as [e|].
+    - exfalso. destruct e; vm_compute in Ha; discriminate.
+    - destruct (deliver_none _ _ _ _ _ _ _ _ _ _ Hd) as [Hf _]. subst f'.
+      exists w', o. split; reflexivity.
+  Qed.
+
+  (* threaded: the same datagram; the handler then reads the None it left in self.request *)
+  Lemma sync_dgram_activation : forall c w bs w' o, cfg_broadcast c = false -> whole_frames bs -> empty_read_idle ->
+    (let '(ds, ff, exn) := e_recv _ _ _ _ E (fargs_for (fc_loop code AioUdp) c w false) finit bs in
+     deliver (fc_exec code AioUdp) c w ds ff exn []) = (w', finit, o, None) ->
+    exists cs', serve_activation SyncUdp c w fresh_conn (IData bs) = (w', cs', o, Stop).
+  Proof.
+    intros c w bs w' o Hb [Hne Hw] Hidle Hd.
+    assert (He : is_empty bs = false) by (destruct bs; [congruence|reflexivity]).
+    assert (H1 : serve_step SyncUdp c w fresh_conn (IData bs) = (w', fresh_conn, o, Continue)).
+    { unfold Frontends.serve_step, Frontends.serve_data.
+      cbn [pre_raise fc_loop code loop_of loop_SyncUdp ls_addr_fmt ls_listen_gate ls_units andb].
+      rewrite He. cbn [andb].
+      pose proof (dgram_fargs c w false Hb) as Hf.
+      cbn [fc_loop fc_exec code loop_of exec_of] in Hf, Hd |- *. rewrite Hf.
+      change (cs_f FS fresh_conn) with finit.
+      change exec_SyncUdp with exec_AioUdp.
+      destruct (e_recv _ _ _ _ E (fargs_for loop_AioUdp c w false) finit bs) as [[ds ff] exn].
+      rewrite Hd. reflexivity. }
+    assert (H2 : serve_step SyncUdp c w' fresh_conn (IData []) =
+                 (w', {| cs_f := finit; cs_running := false; cs_closed := false |}, [], Stop)).
+    { unfold Frontends.serve_step, Frontends.serve_data.
+      cbn [pre_raise fc_loop code loop_of loop_SyncUdp ls_addr_fmt ls_listen_gate ls_units andb is_empty empty_skips ls_empty].
+      change (cs_f FS fresh_conn) with finit.
+      rewrite Hidle. reflexivity. }
+    unfold Frontends.serve_activation.
+    change (ls_site (fc_loop code SyncUdp)) with PerDatagram. cbv iota.
+    rewrite H1. cbn [continues]. rewrite H2. rewrite app_nil_r. eexists. reflexivity.
+  Qed.
+
+  (* a history of datagrams (peer, bytes) *)
+  Definition dgram_events (dgs : list (nat * bytes)) : list (nat * input) :=
+    map (fun kb => (fst kb, IData (snd kb))) dgs.
+
+  Fixpoint dgram_clean (c : cfg) (w : World) (dgs : list (nat * bytes)) : bool :=
+    match dgs with
+    | [] => true
+    | (_, b) :: t => let '(w', _, _, a) := serve_step AioUdp c w fresh_conn (IData b) in
+                     action_eqb a Continue && dgram_clean c w' t
+    end.
+
+  Definition outs_of (lg : list (logrec World)) : list (nat * list bytes) :=
+    map (fun r => (lg_conn _ r, lg_out _ r)) lg.
+
+  Lemma action_eqb_continue' : forall a, action_eqb a Continue = true -> a = Continue.
+  Proof. intros a; destruct a; cbn; congruence. Qed.
+
+  Lemma dgram_equiv : forall c dgs sva svs,
+    cfg_broadcast c = false -> empty_read_idle ->
+    Forall (fun kb => whole_frames (snd kb)) dgs ->
+    sv_world _ _ sva = sv_world _ _ svs -> sv_shared _ _ sva = fresh_conn ->
+    dgram_clean c (sv_world _ _ sva) dgs = true ->
+    outs_of (snd (run_events SyncUdp c svs (dgram_events dgs))) =
+    outs_of (snd (run_events AioUdp c sva (dgram_events dgs))) /\
+    sv_world _ _ (fst (run_events SyncUdp c svs (dgram_events dgs))) =
+    sv_world _ _ (fst (run_events AioUdp c sva (dgram_events dgs))).
+  Proof.
+    intros c dgs. induction dgs as [|[k b] t IH]; intros sva svs Hb Hidle Hall Hw Hsh Hcl.
+    - cbn. split; [reflexivity|symmetry; exact Hw].
+    - inversion Hall as [|? ? Hwb Ht]; subst. cbn [snd] in Hwb.
+      cbn [dgram_clean] in Hcl.
+      destruct (serve_step AioUdp c (sv_world _ _ sva) fresh_conn (IData b)) as [[[w1 cs1] o1] a1] eqn:Hst.
+      apply andb_prop in Hcl. destruct Hcl as [Ha Hcl]. apply action_eqb_continue' in Ha. subst a1.
+      assert (Hsnd : snd (serve_step AioUdp c (sv_world _ _ sva) fresh_conn (IData b)) = Continue)
+        by (rewrite Hst; reflexivity).
+      destruct (aio_dgram_step c (sv_world _ _ sva) b Hwb Hsnd) as (w' & o & Heq & Hd).
+      rewrite Hst in Heq. inversion Heq; subst w1 cs1 o1. clear Heq.
+      destruct (sync_dgram_activation c (sv_world _ _ sva) b w' o Hb Hwb Hidle Hd) as [cs' Hsy].
+      set (sva' := {| sv_world := w'; sv_conns := sv_conns _ _ sva; sv_shared := fresh_conn |}).
+      set (svs' := {| sv_world := w'; sv_conns := sv_conns _ _ svs; sv_shared := sv_shared _ _ svs |}).
+      assert (HA : serve_event AioUdp c sva k (IData b) = (sva', o, Continue)).
+      { unfold Frontends.serve_event, Frontends.conn_state, Frontends.serve_activation.
+        change (ls_site (fc_loop code AioUdp)) with PerServer. cbv iota. rewrite Hsh, Hst. reflexivity. }
+      assert (HS : serve_event SyncUdp c svs k (IData b) = (svs', o, Stop)).
+      { unfold Frontends.serve_event, Frontends.conn_state.
+        change (ls_site (fc_loop code SyncUdp)) with PerDatagram. cbv iota. rewrite <- Hw, Hsy. reflexivity. }
+      specialize (IH sva' svs' Hb Hidle Ht eq_refl eq_refl Hcl).
+      cbn [dgram_events map fst snd Frontends.run_events]. fold (dgram_events t).
+      rewrite HA, HS.
+      destruct (run_events SyncUdp c svs' (dgram_events t)) as [sfs lgs].
+      destruct (run_events AioUdp c sva' (dgram_events t)) as [sfa lga].
+      cbn [fst snd outs_of map lg_conn lg_out] in *. destruct IH as [IH1 IH2].
+      split; [f_equal; exact IH1|exact IH2].
+  Qed.
+End Dgram.
